@@ -705,6 +705,47 @@ fn gen_event_reuse_recipe(rng: &mut Rng, cfg: &Config, gw: &mut GenWorld, next_i
     out
 }
 
+/// A scripted mini-history for the "transaction waited in the mempool while the state it was
+/// checked against changed" class: the sudo account queues `remove validator K` behind a nonce gap
+/// while K exists, removes K with the gap's predecessor, then fills the gap with `add K`. The
+/// proposer of the next block sees [add K, remove K] become executable together although the
+/// queued removal is invalid against the state at the start of that block.
+fn gen_stale_mempool_recipe(rng: &mut Rng, cfg: &Config, gw: &mut GenWorld, next_id: &mut u32, profile: &str) -> Vec<Op> {
+    let mut out = Vec::new();
+    if gw.vkeys.len() < 2 {
+        return out;
+    }
+    let k = gw.vkeys[rng.below_usize(gw.vkeys.len())];
+    let sudo = gw.sudo;
+    let mut id = || {
+        let i = *next_id;
+        *next_id += 1;
+        i
+    };
+    let tx = |id: u32, nonce: NonceSel, power: u32| {
+        Op::Tx(TxOp { id, signer: sudo, nonce, actions: vec![ActOp::ValidatorUpdate { vkey: k, power }], nodes: 0xff, dup: false, replay_of: None })
+    };
+    let block = |id: u32, rng: &mut Rng| {
+        Op::Block(BlockOp {
+            id,
+            dt_ms: rng.range(1, 999) as u32,
+            max_tx_bytes: 1_048_576,
+            rounds: vec![RoundOp { proposer: rng.below(8) as u8, prepare: true, process: 0xff, byz: None }],
+            crash: None,
+            late: 0,
+            votes: gen_votes(rng, cfg, profile),
+            verify_on: rng.below(8) as u8,
+        })
+    };
+    out.push(tx(id(), NonceSel::Plus(2), 0)); // parked: remove K (valid now)
+    out.push(tx(id(), NonceSel::Next, 0)); // remove K
+    out.push(block(id(), rng));
+    out.push(tx(id(), NonceSel::Next, rng.range(1, 9) as u32)); // add K again: fills the gap
+    out.push(block(id(), rng));
+    out.push(block(id(), rng));
+    out
+}
+
 fn gen_ibc(rng: &mut Rng, cfg: &Config, gw: &GenWorld, id: u32) -> IbcOp {
     let na = u64::from(cfg.n_accounts);
     let relayer = if !gw.relayers.is_empty() && rng.chance(9, 10) { *rng.pick(&gw.relayers) } else { rng.below(na) as u8 };
@@ -911,6 +952,10 @@ pub(crate) fn generate(profile: &str, tier: &str, seed: u64) -> Scenario {
                 tx_ids.push(t.id);
             }
         }
+        ops.extend(recipe);
+    }
+    if matches!(profile, "validators" | "proposal" | "mixed" | "authority") && rng.chance(1, 3) {
+        let recipe = gen_stale_mempool_recipe(&mut rng, &cfg, &mut gw, &mut next_id, profile);
         ops.extend(recipe);
     }
     for _h in 0..heights {
